@@ -3,7 +3,8 @@
 (* (2) every hostile class string up to MaxLen over the adversarial alphabet (concretised by the harness).    *)
 EXTENDS XmlWriter, Json
 CONSTANTS MaxLen, Mode
-Hostile == {"p", "lt", "gt", "amp", "quot", "apos", "sp", "cdend", "entity", "comment", "lbrace", "rbrace", "dollar", "astral", "rtl", "numref", "tag", "pi"}
+Hostile == {"p", "lt", "gt", "amp", "quot", "apos", "sp", "cdend", "entity", "comment", "lbrace", "rbrace", "dollar", "astral", "rtl", "numref", "tag", "pi",
+            "zwnj", "rlm", "zwsp"}      \* zero-width non-joiner (Persian spelling), right-to-left mark, zero-width space: data, not blanks
 VARIABLE hs
 GInit == IF Mode = "dom" THEN dom \in Doms /\ hs = <<>> ELSE dom = [k |-> "none"] /\ hs = <<>>
 GNext == Mode = "str" /\ Len(hs) < MaxLen /\ \E c \in Hostile : hs' = Append(hs, c) /\ UNCHANGED dom
